@@ -1,4 +1,5 @@
 import Texel.Model.TmsJson
+import Texel.Proofs.TmsJson
 /-! # C16 — tile matrix set documents survive decode/encode; bad ones give errors
 
 Model `Texel.TJ` (`Model/TmsJson.lean`): `decode`/`encode` of tile matrix set documents including the library behaviour that
@@ -217,6 +218,25 @@ theorem C16_tms_rejected_of_member (xs : List J) (x : J) (hx : x ∈ xs) (hr : R
       exact rejected_bind _ _ fun v hv => absurd hv (hr v)
     · refine rejected_bind _ _ fun v _ => ?_
       exact ih h _
+
+/-- **round trip**: whatever document the decoder accepts, encoding the decoded value and decoding again yields an equal value -/
+theorem C16_roundtrip (j : J) (t : TMS) (h : decode j = .ok t) : decode (encode t) = .ok t :=
+  decode_encode_decode j t h
+
+/-- **stable encoding**: decoding the encoding and encoding again gives the same document -/
+theorem C16_stable (j : J) (t t' : TMS) (h : decode j = .ok t) (h' : decode (encode t) = .ok t') : encode t' = encode t := by
+  rw [decode_encode_decode j t h] at h'
+  cases h'
+  rfl
+
+/-- accepted documents carry only positive sizes, positive cell sizes and integer ids — in every tile matrix -/
+theorem C16_accepted_is_well_formed (j : J) (t : TMS) (h : decode j = .ok t) :
+    t.matrices ≠ [] ∧ ∀ e ∈ t.matrices, 1 ≤ e.2.tileWidth ∧ 1 ≤ e.2.tileHeight ∧ 1 ≤ e.2.matrixWidth ∧ 1 ≤ e.2.matrixHeight ∧
+      e.2.cellSize.pos = true ∧ e.2.scaleDenominator.pos = true ∧ parseInt64 e.2.id = some e.1 := by
+  have hwf := decode_WF j t h
+  refine ⟨hwf.nonempty, fun e he => ?_⟩
+  have := hwf.matrices.2 e he
+  exact ⟨this.tw.1, this.th.1, this.mw.1, this.mh.1, this.cs, this.sd, this.key⟩
 
 -- concrete instances
 example : Rejected (decode (.obj [("tileMatrices", .arr [])])) := C16_missing_crs _ rfl
